@@ -214,8 +214,18 @@ def gen_case(rng: random.Random, idx: int, quick: bool):
         elif c < 0.68:
             layout = gen.box(rng.randint(0, 3), cols, rows)
             steps.append({"op": "draw", "layout": layout})
-        elif c < 0.74:
+        elif c < 0.70:
             steps.append({"op": "redraw"})
+        elif c < 0.76:
+            # the public clear_images(): all images or some of the widgets (distinct), at once or
+            # queued, then a redraw of the unchanged layout (a new canvas object whose image rows
+            # are byte-identical but for the disguise) or of a changed one.  At most ONE call
+            # between two redraws: the disguise has three states (count hypothesis of no_ghosts)
+            k = rng.choice([0, 0, 1, 1, 2])
+            steps.append({"op": "api", "slots": rng.sample(names, min(k, len(names))), "now": rng.random() < 0.5})
+            if rng.random() < 0.3:
+                layout = mutate(rng, gen, layout)
+            steps.append({"op": "draw", "layout": layout})
         elif c < 0.79:
             steps.append({"op": "clear"})
             steps.append({"op": rng.choice(["redraw", "draw"]), "layout": layout})
@@ -243,6 +253,9 @@ def gen_case(rng: random.Random, idx: int, quick: bool):
             steps.append({"op": "clear"})
             steps.append({"op": "draw", "layout": layout})
     steps.append({"op": "stop"})
+    case = {"term": term, "ksup": ksup, "size": [cols, rows], "z_start": z_start, "slots": slots, "steps": steps}
+    assert in_domain(case), case
+    return case
     return {"term": term, "ksup": ksup, "size": [cols, rows], "z_start": z_start, "slots": slots, "steps": steps}
 
 
@@ -312,6 +325,30 @@ def corpus():
                             {"op": "new", "slot": "d", "spec": kc(3, 0)}, {"op": "new", "slot": "e", "spec": kc(1, 0)},
                             d(["cols", [[["weight", 1], ["img", "a"]], [["weight", 1], ["img", "b"]]]]),
                             {"op": "del", "slot": "c"}, d(["fill", "."]), {"op": "new", "slot": "f", "spec": kc(0, 0)}, E]})
+    # a canvas spanning two shards at the right end of its rows (its left neighbour is split into
+    # two shards), and below it a row whose views start at its column: the tail of the tall
+    # canvas must have expired when the walk reaches that row; the divider then moves
+    def tall(w):
+        return ["pile", [[["given", 2], ["cols", [[["given", w], ["pile", [[["weight", 1], ["fill", "t"]], [["weight", 1], ["fill", "s"]]]]],
+                                                  [["weight", 1], ["fill", "B"]]]]],
+                         [["weight", 1], ["cols", [[["given", w], ["fill", "|"]], [["given", 8], ["img", "a"]],
+                                                   [["weight", 1], ["fill", "."]]]]]]]
+    for term in ("kitty", "konsole", "other"):
+        base = {"term": term, "ksup": True, "size": [30, 8], "z_start": None}
+        cases.append(dict(base, slots={"a": K0}, steps=[S, d(tall(4)), d(tall(15)), d(tall(17)), d(tall(4)), E]))
+    # the public clear_images(): everything / one widget / two widgets, immediately / queued, each
+    # followed by a redraw of the unchanged layout, then of a changed one
+    def api(slots, now):
+        return {"op": "api", "slots": slots, "now": now}
+    for term in ("kitty", "konsole", "other"):
+        base = {"term": term, "ksup": True, "size": [20, 12], "z_start": None}
+        lay = ["pile", [["pack", ["text", "t"]], ["pack", ["img", "a"]], ["pack", ["img", "b"]], [["weight", 1], ["fill", "."]]]]
+        lay2 = ["pile", [["pack", ["text", "t2"]], ["pack", ["img", "a"]], ["pack", ["img", "b"]], [["weight", 1], ["fill", "."]]]]
+        second = {"kind": "iterm2" if term == "konsole" else "kitty", "img": 3, "upscale": True, "cls": 1}
+        cases.append(dict(base, slots={"a": K, "b": second},
+                          steps=[S, d(lay), api([], True), d(lay), api([], False), d(lay2), api(["a"], True), d(lay2),
+                                 api(["a", "b"], False), d(lay), api(["b"], True), d(lay2), api([], True), d(lay2),
+                                 api([], True), {"op": "clear"}, d(lay2), E]))
     kon = {"term": "konsole", "ksup": True, "size": [24, 10], "z_start": None}
     both = ["cols", [[["weight", 1], ["img", "a"]], [["weight", 1], ["img", "b"]]]]
     cases.append(dict(kon, slots={"a": K, "b": I}, steps=[S, d(both), d(ov(3, bottom=both)), d(ov(4, 1, bottom=both)),
@@ -356,6 +393,8 @@ class Encoder:
         self.case = case
         self.res = result
         self.canvs = {}     # canvas id -> ref
+        ns = len(case.get("slots", {}))
+        self.now = {ns + j: bool(st.get("now")) for j, st in enumerate(case["steps"]) if st["op"] == "api"}
         self.lex_errors = []
 
     def toks(self, s, what):
@@ -410,6 +449,17 @@ class Encoder:
                     f"{self.toks(r['out'], f'step {i} output')} {truth})")
         if op in ("clear", "start", "stop"):
             return f"(X{op.capitalize()} {self.toks(r['out'], f'step {i} output')})"
+        if op == "api":
+            if r.get("api_skipped"):
+                return "XDel"
+
+            def wk(e):
+                if e[1] == "kitty":
+                    return f"({e[0]}, WKitty {core.z(e[2])})"
+                return f"({e[0]}, {'WIterm' if e[1] == 'iterm2' else 'WText'})"
+            return (f"(XApi {core.coq_list(r['api'], wk)} {b(self.now[i])} "
+                    f"{self.toks(r.get('tty', ''), f'step {i} terminal-device output')} "
+                    f"{self.toks(r['out'], f'step {i} output')})")
         if op == "new":
             a = r["alloc"]
             if a[0] == "raised":
@@ -459,6 +509,8 @@ def describe(case, upto=None):
             parts.append(f"new {st['slot']}:{st['spec']['kind']}#{st['spec']['img']}{CLASS_NAME.get(st['spec'].get('cls', 0), '')}")
         elif st["op"] == "del":
             parts.append(f"del {st['slot']}")
+        elif st["op"] == "api":
+            parts.append(f"clear_images({','.join(st.get('slots', []))}{',' if st.get('slots') else ''}now={bool(st.get('now'))})")
         else:
             parts.append(st["op"])
     return s + " ; ".join(parts)
@@ -562,6 +614,27 @@ def sub_layouts(L):
     return subs
 
 
+def in_domain(case):
+    """the public clear_images() is exercised within the domain of no_ghosts: at most one call
+    between two redraws (the disguise has three states: the count hypothesis), and the next
+    redraw is one of a NEW canvas object (urwid returns early, writing nothing, when it is
+    handed the very canvas object it drew last)"""
+    pending = 0
+    for st in case["steps"]:
+        op = st["op"]
+        if op == "api":
+            pending += 1
+            if pending > 1:
+                return False
+        elif op == "redraw":
+            if pending:
+                return False
+        elif op in ("draw", "clear", "stop", "start"):
+            pending = 0
+        # draw_bad: the inner draw raises before writing anything: the call stays pending
+    return True
+
+
 def size_of(case):
     return (len(case["steps"]), len(json.dumps(case["steps"])), len(case["slots"]), len(json.dumps(case["slots"])))
 
@@ -573,7 +646,7 @@ def shrink(case, verdict, errors, rounds=4, t_end=None):
     for _ in range(rounds):
         if t_end is not None and _time.time() > t_end:
             break
-        cands = [c for c in shrink_candidates(best, bv[2]) if size_of(c) < size_of(best)]
+        cands = [c for c in shrink_candidates(best, bv[2]) if size_of(c) < size_of(best) and in_domain(c)]
         if not cands:
             break
         cands = sorted(cands, key=size_of)[:40]
@@ -589,7 +662,7 @@ def shrink(case, verdict, errors, rounds=4, t_end=None):
 
 def run(ctx):
     errors, mismatches, failures, raw_failing = [], [], [], []
-    hist = {"terminal": {}, "widget_classes": {}, "sessions_mixing_classes": 0, "steps_per_session": {}, "op": {}, "layout_nodes": {}, "widget_kinds": {},
+    hist = {"terminal": {}, "public_clear_images_calls": {}, "widget_classes": {}, "sessions_mixing_classes": 0, "steps_per_session": {}, "op": {}, "layout_nodes": {}, "widget_kinds": {},
             "verdict": {}, "views_on_screen": {}, "deletes": {"all": 0, "by_z": 0, "cursor": 0},
             "redraws_with_vanished_views": 0, "non_composite_canvases": 0, "image_lines_in_canvases": 0,
             "image_lines_written": 0, "z_freed": 0, "z_reused": 0, "z_exhausted": 0}
@@ -628,6 +701,9 @@ def run(ctx):
             hist["sessions_mixing_classes"] += 1
         for st in c["steps"]:
             hist["op"][st["op"]] = hist["op"].get(st["op"], 0) + 1
+            if st["op"] == "api":
+                key = ("all" if not st.get("slots") else f"{len(st['slots'])} widget(s)") + (", now" if st.get("now") else ", queued")
+                hist["public_clear_images_calls"][key] = hist["public_clear_images_calls"].get(key, 0) + 1
             if "layout" in st:
                 for node in ("pile", "cols", "overlay", "listbox", "linebox", "filler", "padding", "boxadapter", "img", "fill"):
                     if f'["{node}"' in json.dumps(st["layout"]):
@@ -716,7 +792,7 @@ def run(ctx):
                 "Overlay, ListBox, LineBox, Filler, Padding, BoxAdapter, image widgets in box and flow position, the same "
                 "widget possibly several times) followed by 3-10 operations: a mutation of the layout (overlay moved / "
                 "resized / its top replaced, list box scrolled, item inserted / removed, image swapped), a new layout, redraw "
-                "of the same canvas, clear()+redraw, stop/start, a widget replaced by a new one, a widget dropped and "
+                "of the same canvas, the PUBLIC clear_images() (all images or one / two widgets, now=True or queued) followed by a redraw of the unchanged or a changed layout, clear()+redraw, stop/start, a widget replaced by a new one, a widget dropped and "
                 "collected, a redraw whose inner draw raises.  Non-trivial: distinct sessions judged 0 in which at least one "
                 "redraw made image views vanish.",
         "samples": samples,
